@@ -575,8 +575,8 @@ def replay_pairs(items, mode):
                     b_ = _re.sub(r'(\\t|\t)(maxDiff|minDiff): *\d+', '', b_)
                 if mode == 'tie2':
                     # the tie_order entries of the candidate table are the input itself
-                    a_ = _re.sub(r'"tie_order": \\d+', '"tie_order": _', a_)
-                    b_ = _re.sub(r'"tie_order": \\d+', '"tie_order": _', b_)
+                    a_ = _re.sub(r'"tie_order": \d+', '"tie_order": _', a_)
+                    b_ = _re.sub(r'"tie_order": \d+', '"tie_order": _', b_)
                 if a_ != b_:
                     out.append('%s rendering differs' % k)
                     violated = True
